@@ -304,6 +304,9 @@ def run(ctx, rep):
     # a request is only answered if the code between receiving and answering it terminates
     from rules import c04_progress
     c04_progress.run(ctx, rep, rid="R-C12-progress")
+    from rules import c04_recursion
+    c04_recursion.run_fanout(ctx, rep, rid="R-C12-fanout")
+    c04_recursion.run_depth(ctx, rep, rid="R-C12-depth")
     # spans are byte offsets into the pre-processed text but are applied to the original text: the pre-processor must keep every byte position
     from rules import c05_blank
     c05_blank.run(ctx, rep, rid="R-C12-blank")
